@@ -914,6 +914,8 @@ class BlockNode(AstNode, NamespaceMixin):
     def __init__(self, parent, format=None, options=None, **kwargs):
         # From arguments
         self.parent = parent
+        # A block is transparent, it is the same kind of node as its parent.
+        self.nodename = parent.nodename
 
         self.classes = parent.classes
         self.enums = parent.enums
